@@ -1,6 +1,8 @@
 """C09 — tool/base/frame wrappers compose consistently."""
 from props import _gencommon as G
 ID = "C09"
+# files this check also depends on (the quick tier runs at the thorough sizes when one of them differs from the fingerprinted tree)
+EXTRA_FILES = ['src/parallelogram.rs']
 COQ_TARGETS = ["Gen/Delegation.vo", "Properties/C09.vo"]
 THEOREMS = ["C09_stack_forward", "C09_stack_entries", "C09_stack_roundtrip", "C09_stack_roundtrip_5dof", "C09_links_tool",
             "C09_links_base", "C09_links_last_base", "C09_links_last_frame", "C09_stack_constraints", "C09_gantry_forward",
